@@ -280,7 +280,9 @@ class SerialPool:
 class SerialMP:
     """In-process pool: same call surface, no fork. Used where worker placement is irrelevant to the property."""
 
-    def Pool(self, processes=None, *a, **k):
+    def Pool(self, processes=None, initializer=None, initargs=(), maxtasksperchild=None, context=None):
+        if initializer is not None:                 # the one in-process "worker" is initialised like a real one
+            initializer(*initargs)
         return SerialPool(processes)
 
     def current_process(self):
